@@ -812,7 +812,7 @@ func genC22Case(t *Tape) []StoreEvent {
 		case 1:
 			evs = append(evs, StoreEvent{Op: "disconnect", Client: cl, Flag: t.Draw("c22.expire", 2) == 1})
 		case 2:
-			evs = append(evs, StoreEvent{Op: "subscribed", Client: cl, Filter: pickStr(t, "c22.filter", filters), Qos: byte(t.Draw("c22.qos", 3)), Flag: t.Draw("c22.nl", 2) == 1})
+			evs = append(evs, StoreEvent{Op: "subscribed", Client: cl, Filter: pickStr(t, "c22.filter", filters), Qos: byte(t.Draw("c22.qos", 3)), Flag: t.Draw("c22.nl", 2) == 1, PID: uint16(t.Draw("c22.reqabove", 2))})
 		case 3:
 			evs = append(evs, StoreEvent{Op: "unsubscribed", Client: cl, Filter: pickStr(t, "c22.filter", filters)})
 		case 4:
@@ -862,7 +862,13 @@ func applyStoreEvents(h mqtt.Hook, srv *mqtt.Server, evs []StoreEvent) {
 		case "disconnect":
 			h.OnDisconnect(get(e.Client), nil, e.Flag)
 		case "subscribed":
-			h.OnSubscribed(get(e.Client), packets.Packet{Filters: packets.Subscriptions{{Filter: e.Filter, Qos: e.Qos, NoLocal: e.Flag, Identifier: int(e.Qos) * 3}}}, []byte{e.Qos})
+			// the filter carries the QoS the client asked for, the reason code the QoS the broker granted (lower when
+			// the server's maximum is): what a faithful store keeps is the granted one
+			req := e.Qos + byte(e.PID)
+			if req > 2 {
+				req = 2
+			}
+			h.OnSubscribed(get(e.Client), packets.Packet{Filters: packets.Subscriptions{{Filter: e.Filter, Qos: req, NoLocal: e.Flag, Identifier: int(e.Qos) * 3}}}, []byte{e.Qos})
 		case "unsubscribed":
 			h.OnUnsubscribed(get(e.Client), packets.Packet{Filters: packets.Subscriptions{{Filter: e.Filter}}})
 		case "retain":
